@@ -2,6 +2,7 @@ import FxVerif.Model.C16
 import FxVerif.Proofs.C16Sem
 import FxVerif.Proofs.C16Store
 import FxVerif.Model.C16Tx
+import FxVerif.Model.C16Blk
 import FxVerif.Proofs.C16Tx
 import FxVerif.Proofs.C16Dep
 import FxVerif.Gen.C16Proto
@@ -834,6 +835,226 @@ example : lowerAsciiStr (strOf "cosmos10d07y265gmmuvt4z0w9aw880jnsr700j6zn9kn") 
     accAddress { pref := strOf "cosmos", minLen := 1, maxLen := 255 } (strOf "cosmos10d07y265gmmuvt4z0w9aw880jnsr700j6zn9kn") ≠
       some (List.replicate 20 1) := by decide +kernel
 example : (blockRun (σ := Nat) prog C16Sem.msgInfos [] 0).2 = 0 := rfl
+
+/-! ### whole blocks of multi-message, multi-signer transactions; `x/authz` inside blocks; begin / end blockers (round 5) -/
+
+/-- the closed form `txRunN` (multi-message, multi-signer transaction) IS the regenerated `baseapp.runTx` statement list
+run on the transaction it describes — the block model of round 5 has no hand-written pipeline of its own -/
+theorem tx_run_n_is_regenerated_pipeline {σ : Type} (P : Program) (infos : List MsgInfo) (t : BlockTxN σ) (s : σ) :
+    (txRunN P infos t s).2 = runTxGen (txInN P infos t) s := by
+  rw [run_tx_gen_spec _ _ (fun _ => rfl)]
+  unfold txRunN runTxSpec txInN
+  cases hb : t.msgs.all (·.basic infos) with
+  | false => simp
+  | true =>
+    simp only [Bool.not_true, Bool.false_eq_true, ↓reduceIte]
+    cases ha : anteOkN t with
+    | false => simp
+    | true =>
+      simp only [Bool.not_true, Bool.false_eq_true, ↓reduceIte]
+      rcases loopMsgsG true (t.msgs.map (·.handler P infos)) s .ok with ⟨r, s'⟩
+      cases r <;> rfl
+
+/-- the privileged message is an authority message of a registered Msg service, served by the registered concrete type -/
+def privRouted {σ : Type} (p : PrivMsg σ) : Prop :=
+  ∃ r ∈ C16Sem.registrations, ∃ sv ∈ C16Sem.services, sv.pkg = r.service ∧
+    ∃ mm ∈ sv.methods, mm.2 ≠ "" ∧ p.T = r.impl ∧ p.m = mm.1 ∧ p.msg = mm.2
+
+/-- none of the keys that signed is the key of the account the keeper's authority spells (it has none) -/
+def privForeign {σ : Type} (p : PrivMsg σ) (keys : List (List Nat)) : Prop :=
+  lowerAsciiStr p.env.gov = true ∧ ∃ g, accAddress p.env.cfg p.env.gov = some g ∧ g ∉ keys
+
+def bmsgPriv {σ : Type} : BMsg σ → Option (PrivMsg σ)
+  | .priv p => some p
+  | .exec _ p => some p
+  | .plain _ _ => none
+
+/-- every privileged message of the transaction (direct or inside a `MsgExec`) is routed, and no governance key signed -/
+def txNForeign {σ : Type} (t : BlockTxN σ) : Prop :=
+  ∀ b ∈ t.msgs, ∀ p, bmsgPriv b = some p → privRouted p ∧ privForeign p t.keys
+
+/-- a routed privileged message whose authority decodes to an account other than the governance account is refused by
+its handler in EVERY state, leaving it untouched -/
+theorem priv_handler_refuses {σ : Type} (p : PrivMsg σ) (hr : privRouted p) (hgov : lowerAsciiStr p.env.gov = true)
+    (h : accAddress p.env.cfg p.auth ≠ accAddress p.env.cfg p.env.gov) (x : σ) :
+    p.handler prog C16Sem.msgInfos x = (.err, x) := by
+  obtain ⟨r, hr, sv, hsv, hpkg, mm, hmm, hmsg, hT, hm, hmsgEq⟩ := hr
+  unfold PrivMsg.handler
+  rw [hT, hm, hmsgEq]
+  exact routed_rejects_other_accounts r hr sv hsv hpkg mm hmm hmsg p.env hgov p.auth p.W p.payloadOk x h
+
+/-- `x/authz` inside a transaction: a `MsgExec` whose grantee is not the governance account never lets its inner
+privileged message take effect — in every state, whatever the inner authority says -/
+theorem exec_handler_refuses {σ : Type} (grantee : List Nat) (p : PrivMsg σ) (hr : privRouted p)
+    (hgov : lowerAsciiStr p.env.gov = true) (g : List Nat) (hg : accAddress p.env.cfg p.env.gov = some g)
+    (hne : grantee ≠ g) (x : σ) :
+    execHandler prog C16Sem.msgInfos grantee p x = (.err, x) := by
+  unfold execHandler
+  split
+  · rfl
+  · cases ha : accAddress p.env.cfg p.auth with
+    | none => rfl
+    | some bz =>
+      simp only
+      by_cases hb : bz = grantee
+      · subst hb
+        simp only [bne_self_eq_false, Bool.false_eq_true, ↓reduceIte]
+        apply priv_handler_refuses p hr hgov
+        rw [ha, hg]
+        intro he
+        exact hne (Option.some.inj he)
+      · have : (bz != grantee) = true := by simpa using hb
+        simp [this]
+
+theorem addSigner_mem (acc : List (List Nat)) (a : List Nat) : a ∈ addSigner acc a ∧ ∀ x ∈ acc, x ∈ addSigner acc a := by
+  unfold addSigner
+  by_cases h : acc.contains a = true
+  · simp only [h, ↓reduceIte]
+    exact ⟨by simpa using h, fun _ hx => hx⟩
+  · simp only [h, Bool.false_eq_true, ↓reduceIte]
+    exact ⟨by simp, fun x hx => by simp [hx]⟩
+
+/-- the signers of a transaction contain the signer of every one of its messages -/
+theorem signersN_covers {σ : Type} (msgs : List (BMsg σ)) :
+    ∀ (acc ss : List (List Nat)), signersN msgs acc = some ss →
+      (∀ x ∈ acc, x ∈ ss) ∧ ∀ b ∈ msgs, ∃ a, b.signer = some a ∧ a ∈ ss := by
+  induction msgs with
+  | nil =>
+    intro acc ss h
+    simp only [signersN, Option.some.injEq] at h
+    subst h
+    exact ⟨fun _ hx => hx, fun b hb => by simp at hb⟩
+  | cons b bs ih =>
+    intro acc ss h
+    simp only [signersN] at h
+    cases hs : b.signer with
+    | none => simp [hs] at h
+    | some a =>
+      simp only [hs] at h
+      obtain ⟨h1, h2⟩ := ih _ _ h
+      have hm := addSigner_mem acc a
+      refine ⟨fun x hx => h1 x (hm.2 x hx), ?_⟩
+      intro b' hb'
+      rcases List.mem_cons.mp hb' with rfl | hb'
+      · exact ⟨a, hs, h1 a hm.1⟩
+      · exact h2 b' hb'
+
+/-- MULTI-MESSAGE, MULTI-SIGNER TRANSACTIONS: a transaction with ANY number of messages — privileged ones with any
+authority strings and payloads, `MsgExec`s wrapping privileged messages for any grantee, arbitrary other messages with
+arbitrary handlers, in any order — signed with ANY set of keys none of which is the governance key, and carrying at
+least one privileged message, is refused as a whole: no message of it (not the privileged ones, not their siblings
+before or behind) changes the state the handlers write. -/
+theorem multi_tx_needs_governance_key {σ : Type} (t : BlockTxN σ) (hf : txNForeign t) (hp : t.hasPriv = true) (s : σ) :
+    (txRunN prog C16Sem.msgInfos t s).2 = (.err, s) := by
+  unfold txRunN
+  split
+  · rfl
+  · split
+    · rfl
+    · rename_i _ ha
+      -- the ante handler passed: every message's signer is one of the keys
+      have hss : signersN t.msgs [] = some t.keys := by
+        unfold anteOkN at ha
+        cases hsn : signersN t.msgs [] with
+        | none => simp [hsn] at ha
+        | some ss =>
+          have : ss = t.keys := by simpa [hsn] using ha
+          rw [this]
+      obtain ⟨_, hcov⟩ := signersN_covers t.msgs [] t.keys hss
+      -- a privileged message of the transaction
+      obtain ⟨b, hb, hbp⟩ := List.any_eq_true.mp hp
+      obtain ⟨a, hsa, hak⟩ := hcov b hb
+      have href : ∀ x, (b.handler prog C16Sem.msgInfos x).1 = .err := by
+        intro x
+        cases b with
+        | plain _ _ => simp [BMsg.isPriv] at hbp
+        | priv p =>
+          obtain ⟨hr, hgov, g, hg, hgk⟩ := hf _ hb p rfl
+          simp only [BMsg.signer] at hsa
+          have : p.handler prog C16Sem.msgInfos x = (.err, x) := by
+            apply priv_handler_refuses p hr hgov
+            rw [hsa, hg]
+            intro he
+            exact hgk (Option.some.inj he ▸ hak)
+          simp only [BMsg.handler, this]
+        | exec gr p =>
+          obtain ⟨hr, hgov, g, hg, hgk⟩ := hf _ hb p rfl
+          simp only [BMsg.signer, Option.some.injEq] at hsa
+          have : execHandler prog C16Sem.msgInfos gr p x = (.err, x) := by
+            apply exec_handler_refuses gr p hr hgov g hg
+            intro he
+            exact hgk (he ▸ hsa ▸ hak)
+          simp only [BMsg.handler, this]
+      obtain ⟨pre, post, hsplit⟩ := List.append_of_mem hb
+      have hl := loopMsgsG_fails_of_refused _ href (pre.map (·.handler prog C16Sem.msgInfos))
+        (post.map (·.handler prog C16Sem.msgInfos)) s .ok
+      have hmap : t.msgs.map (·.handler prog C16Sem.msgInfos) =
+          pre.map (·.handler prog C16Sem.msgInfos) ++ b.handler prog C16Sem.msgInfos :: post.map (·.handler prog C16Sem.msgInfos) := by
+        rw [hsplit]; simp
+      rw [hmap]
+      rcases hm : loopMsgsG true (pre.map (·.handler prog C16Sem.msgInfos) ++ b.handler prog C16Sem.msgInfos ::
+        post.map (·.handler prog C16Sem.msgInfos)) s .ok with ⟨rm, s2⟩
+      rw [hm] at hl
+      simp only at hl
+      subst hl
+      rfl
+
+/-- WHOLE BLOCKS of such transactions: the state after the block is the state after ONLY the transactions `p` marks
+(those that may carry a governance key, and those that carry no privileged message at all); every other transaction —
+wherever it stands, however many messages and signers it has — is a no-op for the state the handlers write -/
+theorem block_n_effect_is_marked_txs {σ : Type} (p : BlockTxN σ → Bool) (txs : List (BlockTxN σ))
+    (h : ∀ t ∈ txs, p t = false → txNForeign t ∧ t.hasPriv = true) (s : σ) :
+    (blockRunN prog C16Sem.msgInfos txs s).2 = (blockRunN prog C16Sem.msgInfos (txs.filter p) s).2 := by
+  induction txs generalizing s with
+  | nil => rfl
+  | cons t ts ih =>
+    have ih' := fun s' => ih (fun t' ht' => h t' (by simp [ht'])) s'
+    cases hp : p t with
+    | true =>
+      simp only [List.filter_cons, hp, ↓reduceIte, blockRunN]
+      exact ih' _
+    | false =>
+      have ht := h t (by simp) hp
+      have h1 := multi_tx_needs_governance_key t ht.1 ht.2 s
+      have e1 : (txRunN prog C16Sem.msgInfos t s).2.2 = s := by rw [h1]
+      simp only [List.filter_cons, hp, Bool.false_eq_true, ↓reduceIte, blockRunN, e1]
+      exact ih' s
+
+/-- … and each of the unmarked transactions is reported as failed -/
+theorem block_n_foreign_all_fail {σ : Type} (txs : List (BlockTxN σ))
+    (h : ∀ t ∈ txs, txNForeign t ∧ t.hasPriv = true) (s : σ) :
+    (blockRunN prog C16Sem.msgInfos txs s).2 = s ∧ ∀ r ∈ (blockRunN prog C16Sem.msgInfos txs s).1, r.2 = .err := by
+  induction txs generalizing s with
+  | nil => simp [blockRunN]
+  | cons t ts ih =>
+    have ht := h t (by simp)
+    have h1 := multi_tx_needs_governance_key t ht.1 ht.2 s
+    have ih' := ih (fun t' ht' => h t' (by simp [ht'])) s
+    have e1 : (txRunN prog C16Sem.msgInfos t s).2.2 = s := by rw [h1]
+    have e2 : (txRunN prog C16Sem.msgInfos t s).2.1 = .err := by rw [h1]
+    simp only [blockRunN, e1, e2]
+    refine ⟨ih'.1, ?_⟩
+    intro r hr
+    rcases List.mem_cons.mp hr with rfl | hr
+    · rfl
+    · exact ih'.2 r hr
+
+/-- BEGIN / END BLOCKERS: whatever the begin- and end-blockers do (arbitrary functions of the state), a block all of whose
+transactions carry privileged messages and no governance key ends in EXACTLY the state the empty block ends in -/
+theorem block_full_foreign_is_empty_block {σ : Type} (beginB endB : σ → σ) (txs : List (BlockTxN σ))
+    (h : ∀ t ∈ txs, txNForeign t ∧ t.hasPriv = true) (s : σ) :
+    (blockRunFull prog C16Sem.msgInfos beginB endB txs s).2 = (blockRunFull prog C16Sem.msgInfos beginB endB [] s).2 := by
+  unfold blockRunFull
+  simp only [(block_n_foreign_all_fail txs h (beginB s)).1, blockRunN]
+
+/-- the order of `signersN` matters for what the ante handler accepts, not for the theorem: a transaction with two
+privileged messages of two signers passes the ante handler with both keys and is then refused by the first guard -/
+example : addSigner (addSigner [] [1]) [2] = [[1], [2]] ∧ addSigner [[1], [2]] [1] = [[1], [2]] := by decide
+example : (blockRunFull (σ := Nat) prog C16Sem.msgInfos (· + 1) (· * 2) [] 3).2 = 8 := rfl
+example : (txRunN (σ := Nat) prog C16Sem.msgInfos ⟨[.plain [1] (fun s => (.ok, s + 5))], [[1]]⟩ 0) = (.msgs, (.ok, 5)) := by decide
+example : (txRunN (σ := Nat) prog C16Sem.msgInfos ⟨[.plain [1] (fun s => (.ok, s + 5)), .plain [2] (fun s => (.err, s + 1))], [[1], [2]]⟩ 0)
+    = (.msgs, (.err, 0)) := by decide
+example : (txRunN (σ := Nat) prog C16Sem.msgInfos ⟨[.plain [1] (fun s => (.ok, s + 5))], [[2]]⟩ 0).1 = .ante := by decide
 
 /-- obligation over `Gen/C16Dep.lean`: every keeper package the app imports could be read, and every dependency handler
 whose request carries an authority — except the listed `MsgExecLegacyContent` — starts (after statements that cannot
